@@ -93,7 +93,10 @@ class Buffer:
                     message = IndiMessage.from_string(partial)
                     return message, end
                 except Exception:
+                    # complete element that is not a protocol message:
+                    # nothing that follows can make it one, so it is skipped
                     logger.warning("Buffer: Contents is not a valid message")
+                    return None, end
         return None, None
 
     def process(self, callback: Callable[[IndiMessage], None]):
@@ -101,7 +104,7 @@ class Buffer:
         while self.data_len:
             message, end = self._find_message_in_buffer()
 
-            if not message:
+            if end is None:
                 if (
                     self.max_buffer_size_before_frontal_cleanup is not None
                     and self.data_len > self.max_buffer_size_before_frontal_cleanup
@@ -112,4 +115,5 @@ class Buffer:
 
             self.data = self.data[end:]
             self._cleanup_buffer()
-            callback(message)
+            if message is not None:
+                callback(message)
